@@ -99,13 +99,34 @@ func (f *c02File) ReadAt(p []byte, off int64) (int, error) {
 	if f.crashed {
 		return 0, errors.New("verif: process is dead")
 	}
+	mg, rd := f.w.mgHere(), f.w.readerHere()
 	if f.w.takeFault(&f.w.failRead) {
+		if mg != nil {
+			f.w.step("YMgRead true", "OReadErr")
+		} else if rd != nil {
+			rd.fileDone = true
+			f.w.step(fmt.Sprintf("YRdFile %d true", rd.t), "OReadErr")
+		}
 		return 0, errors.New("verif: injected read error")
 	}
+	var n int
+	var err error
 	if b, ok := f.overlay[off]; ok && len(b) == len(p) {
-		return copy(p, b), nil
+		n = copy(p, b)
+	} else {
+		n, err = f.inner.ReadAt(p, off)
 	}
-	return f.inner.ReadAt(p, off)
+	if err == nil && len(p) == rhp2.SectorSize {
+		if mg != nil {
+			f.w.step("YMgRead false", fmt.Sprintf("ORead false %d", c02ContentID((*[rhp2.SectorSize]byte)(p))))
+		} else if rd != nil {
+			rd.fileDone = true
+			f.w.step(fmt.Sprintf("YRdFile %d false", rd.t), c02Res(nil))
+		}
+	} else if err != nil && (mg != nil || rd != nil) {
+		f.w.fatalf("unexpected read error at a cut point: %v", err)
+	}
+	return n, err
 }
 
 func (f *c02File) WriteAt(p []byte, off int64) (int, error) {
@@ -123,10 +144,18 @@ func (f *c02File) WriteAt(p []byte, off int64) (int, error) {
 		f.w.step("XRsZero true", c02Res(nil))
 		return len(p), nil
 	}
+	mg := f.w.mgHere()
 	if f.w.takeFault(&f.w.failWrite) {
+		if mg != nil {
+			f.w.step("YMgWrite false", "OM (ORes (Err EOther))")
+		}
 		return 0, errors.New("verif: injected write error")
 	}
 	f.overlay[off] = append([]byte(nil), p...)
+	if mg != nil {
+		f.w.step("YMgWrite true", c02Res(nil))
+		return len(p), nil
+	}
 	f.w.noteWrite(f.id, off)
 	return len(p), nil
 }
@@ -149,6 +178,22 @@ func (f *c02File) Sync() error {
 		}
 		f.overlay = map[int64][]byte{}
 		f.w.step("XRsEnd true", c02Res(nil))
+		return nil
+	}
+	if mg := f.w.mgHere(); mg != nil { // the fsync of migrateSector
+		mg.park(2)
+		f.mu.Lock()
+		defer f.mu.Unlock()
+		if f.crashed {
+			return errors.New("verif: process is dead")
+		}
+		for off, b := range f.overlay {
+			if _, err := f.inner.WriteAt(b, off); err != nil {
+				return err
+			}
+		}
+		f.overlay = map[int64][]byte{}
+		f.w.step("YMgSync true", c02Res(nil))
 		return nil
 	}
 	t, isSync := f.w.syncThreadOf(c02Goid())
@@ -266,19 +311,26 @@ type c02World struct {
 	ncon                int
 	nvol                int
 
-	volumeHook func() // one-shot: runs after the next Store.Volume read
+	volumeHook func()         // one-shot: runs after the next Store.Volume read
+	opRO       map[int64]bool // the read-only flag as the operator left it (VolumeManager.SetReadOnly; RemoveVolume leaves a volume read-only)
+	asyncGate  *c02Stall      // one-shot: holds the next GrowVolume / ShrinkVolume / MigrateSectors call (the asynchronous part of a resize / removal) before it reaches the store
 
 	// finer steps (verif_c02_steps_test.go): steps are recorded for coq/Storage/DataModel.v's xstep,
 	// a RemoveSector in progress is recorded (and can be parked) at its internal steps
-	xmode       bool
-	rs          *c02RS
-	writeLog    []c02WriteEv // data writes by anybody but the RemoveSector in progress
-	overwritten map[int]bool // roots whose slot was overwritten by the writer of a removed in-flight upload
-	lastC       int          // content identity returned by the last read (-1: error)
-	staleSize   bool         // a ResizeVolume call was overtaken by another one (classification of monitor hits)
-	tempExpired uint64       // highest height ExpireTempSectors was called with, by whichever part of the case
-	lastExists  bool         // the last StoreSector call returned nil without calling the StoreFunc
-	heldRoots   map[int]bool
+	xmode          bool
+	ymode          bool                 // second finer layer (verif_c02_finer_test.go): steps recorded for ystep
+	mg             *c02MG               // how the next migration callbacks are recorded / parked
+	readers        map[int64]*c02Reader // goroutine id -> cache-miss read in progress
+	rs             *c02RS
+	writeLog       []c02WriteEv // data writes by anybody but the RemoveSector in progress
+	overwritten    map[int]bool // roots whose slot was overwritten by the writer of a removed in-flight upload
+	migOverwritten map[int]bool // ... by the writer of an in-flight upload that a migration moved away (stale slot)
+	relocated      map[int]bool // roots that were migrated (and whose old slot was reused) between a reader's SectorLocation and its file read
+	lastC          int          // content identity returned by the last read (-1: error)
+	staleSize      bool         // a ResizeVolume call was overtaken by another one (classification of monitor hits)
+	tempExpired    uint64       // highest height ExpireTempSectors was called with, by whichever part of the case
+	lastExists     bool         // the last StoreSector call returned nil without calling the StoreFunc
+	heldRoots      map[int]bool
 
 	// the discipline of the RPC handlers, per root
 	acked     map[int]bool // Write returned nil since the last restart
@@ -304,8 +356,11 @@ type c02Con struct {
 func (w *c02World) fatalf(f string, a ...any) { panic(fmt.Sprintf("c02-fatal: "+f, a...)) }
 func (w *c02World) step(op, obs string) {
 	w.mu.Lock()
-	if w.xmode && !strings.HasPrefix(op, "XRs") {
+	if w.xmode && !strings.HasPrefix(op, "XRs") && !strings.HasPrefix(op, "YMg") && !strings.HasPrefix(op, "YRd") {
 		op = "XD (" + op + ")"
+	}
+	if w.ymode && !strings.HasPrefix(op, "YMg") && !strings.HasPrefix(op, "YRd") {
+		op = "YX (" + op + ")"
 	}
 	w.res.steps = append(w.res.steps, "("+op+", "+obs+")")
 	w.mu.Unlock()
@@ -355,7 +410,10 @@ func (w *c02World) emitFsync(t int, vol int64, ok bool) {
 	defer w.mu.Unlock()
 	x := func(op string) string {
 		if w.xmode {
-			return "XD (" + op + ")"
+			op = "XD (" + op + ")"
+		}
+		if w.ymode {
+			op = "YX (" + op + ")"
 		}
 		return op
 	}
@@ -414,6 +472,16 @@ func (s *c02Store) Volume(id int64) (storage.Volume, error) {
 // progress they are its first two internal steps.
 func (s *c02Store) SectorLocation(root types.Hash256) (storage.SectorLocation, error) {
 	loc, err := s.Store.SectorLocation(root)
+	if rd := s.w.readerHere(); rd != nil && !s.dead {
+		rd.located = true
+		if err == nil {
+			s.w.step(fmt.Sprintf("YRdLocate %d %d", rd.t, rd.root), fmt.Sprintf("OM (OLoc (Some (%d, %d)))", loc.Volume, loc.Index))
+			rd.park()
+		} else {
+			s.w.step(fmt.Sprintf("YRdLocate %d %d", rd.t, rd.root), "OReadErr")
+		}
+		return loc, err
+	}
 	if rs := s.w.rsHere(); rs != nil && !s.dead {
 		if err == nil {
 			rs.vol, rs.idx, rs.located = loc.Volume, loc.Index, true
@@ -457,12 +525,27 @@ func (s *c02Store) SetReadOnly(id int64, b bool) error {
 	s.rec(fmt.Sprintf("DMeta (SetRO %d %s)", id, coqBool(b)), err)
 	return err
 }
+
+// holdAsync parks the caller if a case armed the gate (one-shot).
+func (s *c02Store) holdAsync() {
+	s.w.mu.Lock()
+	g := s.w.asyncGate
+	s.w.asyncGate = nil
+	s.w.mu.Unlock()
+	if g != nil {
+		close(g.entered)
+		<-g.release
+	}
+}
+
 func (s *c02Store) GrowVolume(id int64, n uint64) error {
+	s.holdAsync()
 	err := s.Store.GrowVolume(id, n)
 	s.rec(fmt.Sprintf("DMeta (Grow %d %d)", id, n), err)
 	return err
 }
 func (s *c02Store) ShrinkVolume(id int64, n uint64) error {
+	s.holdAsync()
 	err := s.Store.ShrinkVolume(id, n)
 	s.rec(fmt.Sprintf("DShrinkT %d %d", id, n), err) // the volume manager truncates the file right after
 	return err
@@ -498,6 +581,10 @@ func (s *c02Store) PruneSectors(ctx context.Context, cutoff time.Time) error {
 }
 
 func (s *c02Store) MigrateSectors(ctx context.Context, id int64, start uint64, fn storage.MigrateFunc) (int, int, error) {
+	s.holdAsync()
+	if s.w.ymode && !s.dead {
+		return s.migrateFiner(ctx, id, start, fn)
+	}
 	var calls []string
 	m, f, err := s.Store.MigrateSectors(ctx, id, start, func(from, to storage.SectorLocation) error {
 		e := fn(from, to)
@@ -510,6 +597,8 @@ func (s *c02Store) MigrateSectors(ctx context.Context, id int64, start uint64, f
 			code = 2
 		case strings.Contains(e.Error(), "failed to write sector"):
 			code = 3
+		case strings.Contains(e.Error(), "sector is being written"): // only with fixes/C02-migrate-in-flight.patch
+			code = 4
 		default:
 			s.w.fatalf("unclassified migration error: %v", e)
 		}
@@ -538,6 +627,12 @@ func (s *c02Store) StoreSector(root types.Hash256, fn storage.StoreFunc) error {
 		called = true
 		if !s.dead {
 			w.step(fmt.Sprintf("DReserve %d %d (Some (%d, %d))", t, r, loc.Volume, loc.Index), "OPlaced")
+			w.mu.Lock()
+			ro := w.opRO[loc.Volume]
+			w.mu.Unlock()
+			if ro {
+				w.monitor("sector-placed-on-read-only-volume", fmt.Sprintf("root %d placed at (%d, %d) although the operator set volume %d read-only", r, loc.Volume, loc.Index, loc.Volume))
+			}
 		}
 		if hold != nil {
 			hold.t, hold.placed = t, true
@@ -572,6 +667,109 @@ func (s *c02Store) StoreSector(root types.Hash256, fn storage.StoreFunc) error {
 		close(hold.reached)
 	}
 	return err
+}
+
+// ---------------------------------------------------------------- hooks for the second finer layer (driven by verif_c02_finer_test.go)
+
+// c02MG says how the callbacks of the MigrateSectors calls of a case are parked.
+type c02MG struct {
+	w       *c02World
+	goid    int64
+	parkAt  int // 0: never; 1: after the transaction opened (in front of migrateSector); 2: in front of the fsync; 3: in front of the commit
+	reached chan struct{}
+	release chan struct{}
+	parked  bool
+	used    bool
+}
+
+func (mg *c02MG) park(at int) {
+	if mg.parkAt != at || mg.used {
+		return
+	}
+	mg.used, mg.parked = true, true
+	close(mg.reached)
+	<-mg.release
+}
+
+// mgHere returns the migration being recorded if the calling goroutine runs its callback.
+func (w *c02World) mgHere() *c02MG {
+	w.mu.Lock()
+	mg := w.mg
+	w.mu.Unlock()
+	if mg == nil || mg.goid != c02Goid() {
+		return nil
+	}
+	return mg
+}
+
+// migrateFiner is MigrateSectors recorded callback by callback: the transaction's choice of source
+// and target (YMgBegin), migrateSector's file operations (recorded by the volume file: YMgRead,
+// YMgWrite, YMgSync) and the commit that follows a callback that returned nil (YMgCommit).
+func (s *c02Store) migrateFiner(ctx context.Context, id int64, start uint64, fn storage.MigrateFunc) (int, int, error) {
+	w := s.w
+	w.mu.Lock()
+	mg := w.mg
+	if mg == nil {
+		mg = &c02MG{w: w}
+		w.mg = mg
+	}
+	w.mu.Unlock()
+	index := start
+	m, f, err := s.Store.MigrateSectors(ctx, id, start, func(from, to storage.SectorLocation) error {
+		w.step(fmt.Sprintf("YMgBegin %d %d %d (%d, %d)", id, start, index, to.Volume, to.Index), fmt.Sprintf("OM (OLoc (Some (%d, %d)))", from.Volume, from.Index))
+		index = from.Index + 1
+		w.mu.Lock()
+		mg.goid = c02Goid()
+		w.mu.Unlock()
+		mg.park(1)
+		e := fn(from, to)
+		if e == nil {
+			mg.park(3)
+			w.step("YMgCommit", c02Res(nil))
+		} else if strings.Contains(e.Error(), "sector is being written") {
+			w.fatalf("fixes/C02-migrate-in-flight.patch is not modelled at this granularity")
+		}
+		w.mu.Lock()
+		mg.goid = 0
+		w.mu.Unlock()
+		return e
+	})
+	w.count(fmt.Sprintf("migrate-finer:migrated=%d,failed=%d,%s", min(m, 3), min(f, 2), c02Err(err)))
+	return m, f, err
+}
+
+// c02Reader is a cache-miss ReadSector call in progress.
+type c02Reader struct {
+	w        *c02World
+	t, root  int
+	goid     int64
+	parkIt   bool // park after SectorLocation
+	reached  chan struct{}
+	release  chan struct{}
+	done     chan struct{}
+	located  bool
+	fileDone bool
+	parked   bool
+	c        int
+	err      error
+}
+
+func (rd *c02Reader) park() {
+	if !rd.parkIt {
+		return
+	}
+	rd.parked = true
+	close(rd.reached)
+	<-rd.release
+}
+
+func (w *c02World) readerHere() *c02Reader {
+	w.mu.Lock()
+	defer w.mu.Unlock()
+	if w.readers == nil {
+		return nil
+	}
+	return w.readers[c02Goid()]
 }
 
 // ---------------------------------------------------------------- hooks for the finer steps (driven by verif_c02_steps_test.go)
@@ -789,6 +987,9 @@ func (w *c02World) addVolume(size uint64) int64 {
 		w.fatalf("grow new volume: %v", err)
 	}
 	w.count("op:AddVolume")
+	w.mu.Lock()
+	delete(w.opRO, v.ID) // row ids can be reused after a removal
+	w.mu.Unlock()
 	w.snapshot()
 	return v.ID
 }
@@ -802,8 +1003,38 @@ func (w *c02World) resize(id int64, size uint64) bool {
 	err := <-res
 	w.count("op:Resize:" + c02Err(err))
 	w.waitReady(id)
+	w.checkOperatorFlag(id, "ResizeVolume")
 	w.snapshot()
 	return true
+}
+
+// checkOperatorFlag: a resize only makes a volume read-only for its own duration.
+func (w *c02World) checkOperatorFlag(id int64, what string) {
+	v, err := w.db.Volume(id)
+	if err != nil {
+		return
+	}
+	w.mu.Lock()
+	want := w.opRO[id]
+	w.mu.Unlock()
+	if v.ReadOnly != want {
+		w.monitor("resize-changed-operator-read-only-flag", fmt.Sprintf("volume %d after %s: read_only=%v, the operator left it %v", id, what, v.ReadOnly, want))
+	}
+}
+
+// setReadOnly is the operator's VolumeManager.SetReadOnly.
+func (w *c02World) setReadOnly(id int64, ro bool) {
+	err := w.vm.SetReadOnly(id, ro)
+	w.count(fmt.Sprintf("op:SetReadOnly:%v:%s", ro, c02Err(err)))
+	if err == nil {
+		w.mu.Lock()
+		if w.opRO == nil {
+			w.opRO = map[int64]bool{}
+		}
+		w.opRO[id] = ro
+		w.mu.Unlock()
+	}
+	w.snapshot()
 }
 
 func (w *c02World) waitReady(id int64) {
@@ -833,6 +1064,12 @@ func (w *c02World) removeVolume(id int64, force bool) {
 		w.count("op:RemoveVolume:refused")
 		return
 	}
+	w.mu.Lock()
+	if w.opRO == nil {
+		w.opRO = map[int64]bool{}
+	}
+	w.opRO[id] = true // RemoveVolume makes the volume read-only and leaves it so when it fails
+	w.mu.Unlock()
 	err := <-res
 	w.count(fmt.Sprintf("op:RemoveVolume:force=%v:%s", force, c02Err(err)))
 	w.waitReady(id)
@@ -1110,6 +1347,10 @@ func (w *c02World) read(r int, failIO bool) {
 		switch {
 		case w.overwritten[r]:
 			w.monitor("remove-sector-of-in-flight-upload-overwrites-new-tenant", detail)
+		case w.migOverwritten[r]:
+			w.monitor("migration-of-in-flight-upload-overwrites-new-tenant", detail)
+		case w.relocated[r]:
+			w.monitor("read-sector-relocated-serves-other-sectors-bytes", detail)
 		case w.staleSize:
 			w.monitor("resize-overtaken-by-earlier-resize-truncated-data", detail)
 		case w.viaHole[r]:
@@ -1377,50 +1618,32 @@ func (w *c02World) directed(id int) bool {
 		w.sync()
 		w.removeVolume(a, false)
 		w.readAll()
-	case 7: // a ResizeVolume call that read the volume size before an earlier resize finished
-		w.res.desc = "directed: ResizeVolume overtaken by an earlier resize"
+	case 7: // a second ResizeVolume while the asynchronous part of the first is in progress (no timing involved)
+		w.res.desc = "directed: ResizeVolume issued while an earlier resize of the volume is in progress"
 		a := w.addVolume(2)
 		w.write(1, false)
 		w.write(2, false)
 		w.sync()
 		w.addTemp([]int{1, 2}, 100)
-		reached, release := make(chan struct{}), make(chan struct{})
-		w.mu.Lock()
-		w.volumeHook = func() { // holds the caller right after it read the size
-			close(reached)
-			select {
-			case <-release:
-			case <-time.After(200 * time.Millisecond): // the read happens under the manager's lock: nothing can overtake
-			}
+		g := w.armAsyncGate()
+		res1 := make(chan error, 1)
+		if err := w.vm.ResizeVolume(context.Background(), a, 4, res1); err != nil {
+			w.fatalf("first resize refused: %v", err)
 		}
-		w.mu.Unlock()
-		res2 := make(chan error, 1)
-		started := make(chan error, 1)
-		go func() { started <- w.vm.ResizeVolume(context.Background(), a, 4, res2) }() // reads "2 sectors"
-		<-reached
-		overtaken := w.resize(a, 6) // the earlier resize completes: 6 sectors
-		if !overtaken {             // the second call already owns the volume: let it finish, then grow
-			if err := <-started; err == nil {
-				<-res2
-			}
-			w.waitReady(a)
-			w.snapshot()
-			w.resize(a, 6)
+		<-g.entered                      // the first resize sits in front of its GrowVolume call
+		w.concurrentResize(a, 6, "grow") // refused on the code as it is; accepted = both run from a stale size
+		close(g.release)
+		if err := <-res1; err != nil {
+			w.fatalf("first resize: %v", err)
 		}
+		w.waitReady(a)
+		w.snapshot()
+		w.resize(a, 6)
 		for r := 3; r <= 6; r++ {
 			w.write(r, false)
 		}
 		w.sync()
 		w.addTemp([]int{3, 4, 5, 6}, 100)
-		if overtaken {
-			w.staleSize = true
-			close(release)
-			if err := <-started; err == nil {
-				<-res2
-			}
-		}
-		w.waitReady(a)
-		w.snapshot()
 		w.readAll()
 	case 8: // re-upload of a dereferenced, not yet pruned sector while a prune pass runs
 		w.res.desc = "directed: prune between a re-upload and its reference commit"
@@ -1487,13 +1710,146 @@ func (w *c02World) directed(id int) bool {
 			w.finishWrite(h, true)
 		}
 		w.readAll()
+	case 13: // work package W: a migration moves a sector whose upload is in flight (possible only into a stale slot)
+		w.res.desc = "directed: shrink migrates a sector whose re-upload into its stale slot is in flight; the vacated slot is reused; the writer then writes"
+		a := w.addVolume(3)
+		for r := 1; r <= 3; r++ {
+			w.write(r, false)
+		}
+		w.sync()
+		mid, others := 0, []int{}
+		for r := 1; r <= 3; r++ {
+			if _, idx, ok := w.locate(r); ok && idx == 1 {
+				mid = r
+			} else {
+				others = append(others, r)
+			}
+		}
+		if mid == 0 {
+			w.fatalf("no sector at index 1")
+		}
+		w.addTemp(others, 100)
+		w.age()
+		w.prune()              // the unreferenced sector loses its slot, its bytes stay in the file
+		h := w.startWrite(mid) // handed the only free slot: the one that still holds its bytes
+		w.addVolume(1)
+		w.resize(a, 1)    // migrateSector reads the stale bytes, the root matches: moved; the next sector has nowhere to go: the shrink fails
+		w.write(4, false) // the vacated slot goes to sector 4
+		w.sync()
+		w.addTemp([]int{4}, 100)
+		if _, _, ok := w.locate(mid); ok && h != nil {
+			if va, ia, _ := w.locate(4); va == a && ia == 1 {
+				w.migOverwritten = map[int]bool{4: true}
+			}
+		}
+		if h != nil {
+			w.finishWrite(h, false) // writes the first sector's bytes into the slot that now belongs to sector 4
+		}
+		w.readAll()
+		w.sync()
+		w.crash(nil)
+		w.readAll()
+	case 14: // a volume that is being resized or removed can not be claimed a second time
+		w.res.desc = "directed: resize / removal issued while a resize (shrink) or a removal of the same volume is in progress"
+		a := w.addVolume(4)
+		for r := 1; r <= 3; r++ {
+			w.write(r, false)
+		}
+		w.sync()
+		w.addTemp([]int{1, 2, 3}, 100)
+		w.addVolume(4)
+		// (i) a shrink held in front of its MigrateSectors call
+		g := w.armAsyncGate()
+		res1 := make(chan error, 1)
+		if err := w.vm.ResizeVolume(context.Background(), a, 2, res1); err != nil {
+			w.fatalf("first resize refused: %v", err)
+		}
+		<-g.entered
+		w.concurrentResize(a, 1, "shrink")
+		w.concurrentResize(a, 8, "grow")
+		w.concurrentRemove(a, "during a resize")
+		close(g.release)
+		<-res1
+		w.waitReady(a)
+		w.snapshot()
+		w.readAll()
+		// (ii) a removal held in front of its MigrateSectors call
+		g = w.armAsyncGate()
+		res2 := make(chan error, 1)
+		if err := w.vm.RemoveVolume(context.Background(), a, false, res2); err != nil {
+			w.fatalf("removal refused: %v", err)
+		}
+		<-g.entered
+		w.concurrentRemove(a, "during a removal")
+		w.concurrentResize(a, 8, "grow during a removal")
+		close(g.release)
+		<-res2
+		w.waitReady(a)
+		w.forgetUnlocated()
+		w.snapshot()
+		w.readAll()
+		w.crash(nil)
+		w.readAll()
+	case 15: // C08: the read-only flag the operator set survives a shrink of that volume
+		w.res.desc = "directed: operator sets a volume read-only, shrinks it, the other volume fills up: the next write must fail with not-enough-storage"
+		a := w.addVolume(4)
+		b := w.addVolume(2)
+		w.setReadOnly(a, true)
+		w.write(1, false) // goes to the other volume
+		w.resize(a, 2)    // a shrink of a read-only volume must leave it read-only
+		w.write(2, false) // the other volume is full now
+		if err := w.write(3, false); err == nil {
+			w.count("op:WriteOnFullHost:accepted")
+		} else {
+			w.count("op:WriteOnFullHost:" + c02Err(err))
+		}
+		w.sync()
+		w.referenceSome()
+		w.resize(b, 3)
+		w.write(3, false)
+		w.setReadOnly(a, false)
+		w.write(4, false)
+		w.sync()
+		w.referenceSome()
+		w.readAll()
 	default:
 		return false
 	}
 	return true
 }
 
-const c02Directed = 13
+const c02Directed = 16
+
+func (w *c02World) armAsyncGate() *c02Stall {
+	g := &c02Stall{entered: make(chan struct{}), release: make(chan struct{})}
+	w.mu.Lock()
+	w.asyncGate = g
+	w.mu.Unlock()
+	return g
+}
+
+// concurrentResize issues ResizeVolume while another operation owns the volume: it must be refused.
+func (w *c02World) concurrentResize(id int64, size uint64, what string) {
+	res := make(chan error, 1)
+	err := w.vm.ResizeVolume(context.Background(), id, size, res)
+	w.count(fmt.Sprintf("op:ConcurrentResize:refused=%v", err != nil))
+	if err == nil {
+		w.staleSize = true
+		w.monitor("second-resize-accepted-while-first-in-progress", fmt.Sprintf("ResizeVolume(%d, %d) (%s) accepted while the volume was claimed", id, size, what))
+		go func() { <-res }()
+	}
+}
+
+// concurrentRemove issues RemoveVolume while another operation owns the volume: it must be refused.
+func (w *c02World) concurrentRemove(id int64, what string) {
+	res := make(chan error, 1)
+	err := w.vm.RemoveVolume(context.Background(), id, false, res)
+	w.count(fmt.Sprintf("op:ConcurrentRemove:refused=%v", err != nil))
+	if err == nil {
+		w.monitor("second-removal-accepted-while-first-in-progress", fmt.Sprintf("RemoveVolume(%d) accepted %s", id, what))
+		go func() { <-res }()
+	}
+}
 
 func (w *c02World) volumeIDs() (ids []int64) {
 	vols, err := w.db.Volumes()
@@ -1583,7 +1939,11 @@ func (w *c02World) generated() {
 				w.prune()
 			}
 		case x < 77:
-			w.resizeCache(rng.Intn(4))
+			if ids := w.volumeIDs(); len(held) == 0 && len(ids) > 0 && rng.Intn(2) == 0 {
+				w.setReadOnly(ids[rng.Intn(len(ids))], rng.Intn(3) != 0)
+			} else {
+				w.resizeCache(rng.Intn(4))
+			}
 		case x < 81:
 			if len(held) == 0 {
 				ids := w.volumeIDs()
@@ -1668,6 +2028,9 @@ func c02RunCase(id int, base string) (res *c02Result) {
 	res.cacheSize = []int{0, 0, 1, 2, 4}[rng.Intn(5)]
 	if id == 4 {
 		res.cacheSize = 2
+	}
+	if id == 13 { // the overwritten sector must be read from the file
+		res.cacheSize = 0
 	}
 	initial := res.cacheSize
 	dir := filepath.Join(base, fmt.Sprintf("c02_%d", id))
